@@ -213,9 +213,19 @@ impl Graph for DG {
                             return out;
                         }
                         Ok(Err(_)) => {
-                            // an object that has reported an error is still a reachable state: callers may call again
+                            // an object that has reported an error is still a reachable state (callers may call
+                            // again): three follow-up calls must return too; the path itself ends here
                             self.errors.fetch_add(1, Ordering::Relaxed);
-                            break;
+                            for (k, follow) in [&[][..], &[0xC3u8][..], &[3u8, 0, 0, 0, 0, 0, 1, 8, 1, 0, 0, 0, 0xAA][..]].iter().enumerate() {
+                                let mut c = n.de.clone();
+                                out.impl_steps += 1;
+                                let r = probe("get_next_message-after-an-error", *i as u64, k as u64, received + follow.len(), 8, || c.get_next_message(follow).is_ok());
+                                if let Err((sig, d)) = r {
+                                    out.viol.push((sig, format!("{} ; after the error reported for token {} = {}, a further call with {}", d, self.tokens[*i].0, hex(bytes), hex(follow))));
+                                    return out;
+                                }
+                            }
+                            return out;
                         }
                         Ok(Ok(None)) => break,
                         Ok(Ok(Some(_))) => {
